@@ -67,6 +67,10 @@ class Tree:
             dclab.set_temporary_feature(
                 self.root, "verif_tmp",
                 np.arange(1, self.n + 1) * 100.0 + v)
+        elif a == "settemp":
+            lvl = self.ds[st["l"]]
+            dclab.set_temporary_feature(lvl, "verif_lvl",
+                                        np.full(len(lvl), float(st["v"])))
         elif a == "rejuvenate":
             self.ds[-1].rejuvenate()
             return self.observe()
@@ -82,7 +86,8 @@ class Tree:
         views["0"] = list(range(1, self.n + 1))
         manvis["0"] = [int(i) + 1 for i in
                        np.flatnonzero(~root.filter.manual)]
-        feats = [f for f in FEATS if f in root] + ["time", "verif_tmp"]
+        feats = [f for f in FEATS if f in root] + ["time", "verif_tmp"] + (
+            ["verif_lvl"] if "verif_lvl" in root else [])
         for l in range(1, len(self.ds)):
             ch = self.ds[l]
             ids = gen.decode_scalar("deform", ch["deform"][:])
@@ -178,8 +183,15 @@ class Tree:
         sel = sorted(lids[j] for j in np.flatnonzero(fa)) \
             if len(fa) == len(lids) else None
         self.view = [views[str(l)] for l in range(len(self.ds))]
+        # the temporary feature assigned through some level, as the root
+        # holds it (0 = NaN / never assigned)
+        if "verif_lvl" in root:
+            tv = np.asarray(root["verif_lvl"][:], dtype=float)
+            temp = [0 if np.isnan(x) else int(x) for x in tv]
+        else:
+            temp = [0] * self.n
         return {"views": views, "manvis": manvis, "sel": sel,
-                "features": sorted(set(bad))}
+                "features": sorted(set(bad)), "temp": temp}
 
 
 def sched_key(st):
@@ -192,7 +204,29 @@ def exp_obs(st):
         return None
     return {"views": {k: list(v) for k, v in st["views"].items()},
             "manvis": {k: sorted(v) for k, v in st["manvis"].items()},
-            "sel": sorted(st["sel"]), "features": []}
+            "sel": sorted(st["sel"]), "features": [],
+            "temp": list(st["temp"])}
+
+
+LOST = ("manual edit made after a temporary feature was assigned through an "
+        "older level is lost")
+
+
+def edit_after_settemp(evs):
+    """evs: the steps before a refresh; True if, since the refresh before,
+    a manual edit was made on a level younger than one through which a
+    temporary feature had been assigned (that assignment refreshes the
+    older levels only)"""
+    seg, pend = [], None
+    for e in evs:
+        seg = [] if e["a"] == "rejuvenate" else seg + [e]
+    for e in seg:
+        if e["a"] == "settemp":
+            pend = e["l"] if pend is None else max(pend, e["l"])
+        elif e["a"] in ("exclude", "include") and pend is not None \
+                and e["l"] > pend:
+            return True
+    return False
 
 
 def signature(steps, i, obs, exp):
@@ -209,7 +243,12 @@ def signature(steps, i, obs, exp):
         return "child events are not the parent's selection (after %s)" \
             % recent
     if obs["manvis"] != e["manvis"]:
+        if edit_after_settemp(steps[:i]):
+            return LOST
         return "manual exclusions not kept in root ids (after %s)" % recent
+    if obs.get("temp") != e.get("temp"):
+        return "temporary feature assigned through a level is wrong at " \
+            "the root (after %s)" % recent
     return "youngest filter selection wrong (after %s)" % recent
 
 
@@ -278,6 +317,7 @@ def _run_schedule(job):
             e["manvis"] = [o["manvis"][str(l)] for l in range(4)]
             e["sel"] = o["sel"] if o["sel"] is not None else [-1]
             e["featbad"] = len(o["features"]) > 0
+            e["temp"] = o["temp"]
         evs.append(e)
     return {"ev": evs}
 
@@ -300,6 +340,7 @@ CHECK_DEADLOCK FALSE
 def main(tier, seed, replay=None):
     dclab = import_dclab()
     dclab.register_temporary_feature("verif_tmp")
+    dclab.register_temporary_feature("verif_lvl")
     ev = evidence.Evidence(PID, tier, seed)
     rep = findings.Reporter(PID, ev)
     ev.rule = ("every history of HierarchySpec made of (edit; rejuvenate) "
@@ -338,7 +379,8 @@ def main(tier, seed, replay=None):
         root_path = scratch / "root.rtdc"
         gen.write_rtdc(root_path, list(range(1, 6)), feats=FEATS)
         plans = [(2, 6, "HHNext"), (2, 8, "FocusNext"), (3, 8, "ShiftNext"),
-                 (4, 6, "ShiftNext")] if q else [
+                 (4, 6, "ShiftNext"), (2, 4, "TempNext")] if q else [
+            (2, 8, "TempNext"), (3, 4, "TempNext"),
             (2, 8, "HHNext"), (3, 6, "HHNext"), (1, 8, "HHNext"),
             (3, 10, "FocusNext"), (2, 10, "FocusNext"), (3, 10, "ShiftNext"),
             (4, 8, "ShiftNext"), (4, 6, "HHNext")]
@@ -395,6 +437,9 @@ def main(tier, seed, replay=None):
                    "features": "child feature differs from parent's "
                                "selection (recorded)",
                    }.get(why, "trace rejected: " + why)
+            if why in ("manvis", "views", "selection") and \
+                    edit_after_settemp(t["ev"][:line - 1]):
+                sig = LOST
             rep.violation(sig, "trace %d line %d (%s): %s" % (
                 tid, line, why, str(t["ev"][line - 1])[:300]),
                 {"prefix": t["ev"][:line]}, size=line)
